@@ -247,16 +247,18 @@ func (e *vf14Env) run(run *verifrt.Run, c vf14Case) {
 		if fmt.Sprint(got) != fmt.Sprint(exp) {
 			report("table-map", fmt.Sprintf("registered tables %v, expected %v (registered iff the table's bytes sum to zero)", vfFmtMap(got), vfFmtMap(exp)))
 		}
-		var skipped []string
-		for _, line := range strings.Split(w.String(), "\n") {
-			if strings.Contains(line, "checksum mismatch") {
-				skipped = append(skipped, line[:4])
+		// "reported": the bring-up output names every skipped table (the wording is the driver's business; a skipped
+		// table is not registered, so nothing else prints its signature)
+		out := w.String()
+		var unreported []string
+		for _, sig := range expSkipped {
+			if !strings.Contains(out, sig) {
+				unreported = append(unreported, sig)
 			}
 		}
-		sort.Strings(skipped)
-		sort.Strings(expSkipped)
-		if fmt.Sprint(skipped) != fmt.Sprint(expSkipped) {
-			report("skip-report", fmt.Sprintf("tables reported as skipped %v, expected %v", skipped, expSkipped))
+		if len(unreported) != 0 {
+			sort.Strings(unreported)
+			report("skip-report", fmt.Sprintf("tables %v have a bad checksum and were skipped, but the output never mentions them: %q", unreported, out))
 		}
 	}()
 	if pan != nil {
